@@ -109,7 +109,8 @@ fn run_source(case: &DripCase, ctx: &mut Ctx) {
     ctx.class(format!("source={name}"));
     let (data, repeat): (Vec<u64>, u8) = match spec {
         VectorSourceU8 { len, repeat } | FileSourceU8 { len, repeat } => (vector_source_data(*len).iter().map(|b| *b as u64).collect(), *repeat),
-        FileSourceF32 { len, repeat } | SigMFSourceF32 { len, repeat, .. } => (f32_source_data(*len).iter().map(|x| x.to_bits() as u64).collect(), *repeat),
+        FileSourceS24 { len, repeat } => (s24_source_data(*len).iter().map(|x| *x as u32 as u64).collect(), *repeat),
+        FileSourceF32 { len, repeat, .. } | SigMFSourceF32 { len, repeat, .. } => (f32_source_data(*len).iter().map(|x| x.to_bits() as u64).collect(), *repeat),
         _ => {
             ctx.skip("not a finite source");
             return;
